@@ -30,13 +30,13 @@ import impl
 import c07_gen as gen
 from common import cfloat, cz, cnat, clist, cpair
 
-THEOREMS_FINAL = ['C07_plane_intersection_on_both', 'C07_plane_intersection_direction',
+THEOREMS = ['C07_plane_intersection_on_both', 'C07_plane_intersection_direction',
             'C07_project_on_plane', 'C07_axial_vector',
             'C07_hex_translation', 'C07_side_constant_along_line',
-            'C07_sort_and_vertices_all_orders', 'C07_walk_never_hangs_on_hexagons',
-            'C07_hex_vertices_factor', 'C07_hex_base_vectors_partial',
-            'C07_regular_hexagon_adjacency']
-THEOREMS = []
+            'C07_adjacent_at_vertex', 'C07_admissible_listings',
+            'C07_sort_and_vertices_all_orders',
+            'C07_walk_never_hangs_on_hexagons',
+            'C07_hex_base_vectors_partial', 'C07_proj_par_meaning']
 TRUSTED = [
     'hand-written model coq/C07/Model.v (modelled, tied by execution only)',
     'binary64 evaluation: the theorems are over R; the model is run at '
